@@ -1512,7 +1512,11 @@ class GeoboxTiles:
             if src_footprint.is_empty:
                 # no overlap at all, empty geometry can not be projected
                 return {}
-            src_footprint = src_footprint.to_crs(self.base.crs)
+            # densify: a raster that is in epsg:4326 already contributes corner points only
+            _bbox = src_footprint.boundingbox
+            src_footprint = src_footprint.to_crs(
+                self.base.crs, resolution=max(_bbox.span_x, _bbox.span_y) / 100
+            )
 
         xy_chunks_with_data = list(self.tiles(src_footprint))
         deps: Dict[Tuple[int, int], List[Tuple[int, int]]] = {}
